@@ -231,9 +231,60 @@ class C18(SolveProperty):
             "which is how a non-terminating change is reported instead of hanging the check")
     assumptions = SolveProperty.assumptions + ["bounds are evaluated per component and summed over the components a query may touch"]
 
+    families = ["solve", "dyn"]
+    dyn_bound_slack = 0
+
     def cases(self, tier, rng):
         lines = super().cases(tier, rng)
-        return [l + " cap=20000" for l in lines if " sem=GR " not in l]
+        return [l + " cap=20000" for l in lines if " sem=GR " not in l] + self.dyn_cases(tier, rng)
+
+    def dyn_cases(self, tier, rng):
+        """the dynamic preferred solver (the only dynamic solver with a search loop): SAT calls of every skeptical query of an update/query
+        history, counted and compared with the bound of the static procedure on the framework as it stands (taken as one component)"""
+        import props_dyn
+        out = []
+        for kind, k in (("pr", 160 if tier == "quick" else 8000), ("co", 20 if tier == "quick" else 500), ("st", 20 if tier == "quick" else 500)):
+            for _ in range(k):
+                toks = props_dyn.gen_history(rng, kind, rng.randint(5, 40))
+                if rng.random() < 0.4:
+                    toks = props_dyn.gadget_prefix(rng, kind) + toks
+                out.append("dyn x kind=%s trace=1 hist=%s" % (kind, ";".join(toks)))
+        return out
+
+    def judge_dyn(self, case_line, impl, model):
+        fs = []
+        kind = kv(case_line).get("kind")
+        counts = {}
+        for l in model:
+            if l.startswith("counts "):
+                t = l.split(" ")
+                counts[int(t[1])] = tuple(int(x) for x in t[2].split(","))
+        if any("CALLCAP" in l for l in impl):
+            fs.append(Finding("input", case_line, "more than 200000 SAT calls in a history: a query does not terminate within any reasonable bound", "dyn %s · call cap exceeded" % kind))
+            return fs
+        qi = 0
+        calls = 0
+        cur = None
+        for l in impl:
+            if l.startswith("Q "):
+                qi += 1
+                calls = 0
+                cur = l
+            elif l.startswith("S ") and l.split(" ")[2:3] == ["q"]:
+                calls += 1
+            elif (l.startswith("ans ") or l.startswith("panic")) and cur is not None:
+                if qi in counts:
+                    cf, adm, co, pr, n = counts[qi]
+                    b = (co + pr + 1 if kind == "pr" else 2) + self.dyn_bound_slack
+                    if calls > b:
+                        fs.append(Finding("input", case_line, "dynamic %s solver: query %d (%s) made %d SAT calls, bound %d (|CO|=%d |PR|=%d)" % (kind, qi, cur, calls, b, co, pr),
+                                          "dyn %s · bound exceeded" % kind, {"calls": calls, "bound": b, "counts(cf,adm,co,pr,n)": counts[qi]}))
+                        return fs
+                cur = None
+        return fs
+
+    def nontrivial(self, case_line):
+        return SolveProperty.nontrivial(self, case_line) if not case_line.startswith("dyn ") else "?ds" in case_line
 
     def bound(self, p, counts):
         sem, enc, task = p.get("sem"), p.get("enc"), p.get("task")
@@ -256,6 +307,8 @@ class C18(SolveProperty):
         return tot
 
     def judge(self, case_line, impl, model):
+        if case_line.startswith("dyn "):
+            return self.judge_dyn(case_line, impl, model)
         fs = super().judge(case_line, impl, model)
         p = kv(case_line)
         entry = "%s/%s/cert=%s" % (p.get("sem"), p.get("task"), p.get("cert", "0"))
